@@ -1,3 +1,51 @@
-From TM Require Import Base Frame.
-Theorem C11_placeholder : fc_value (fc_new 1) = 1.
-Proof. reflexivity. Qed.
+(* C11 -- RTU framing delivers every clean frame and resynchronises after line noise.
+   [carried tbl s pdu]: the length table infers |pdu| from every long-enough prefix of the frame
+   slave :: pdu ++ crc and nothing before; proofs/RtuCarried.v shows this for every typed request /
+   response that fits 253 bytes, the serial-line custom codes, and exception responses. *)
+From Coq Require Import Lia.
+From TM Require Import Base Frame Pdu Crc RtuCodec Framed Spec FramedProofs RtuProofs RtuCarried StreamProofs.
+
+(* a stream consisting only of valid carried frames is delivered completely and in order under
+   EVERY composition into read chunks, server and client side *)
+Theorem C11_clean_stream_server : forall fs is cs,
+  Forall2 valid_rtu_req fs is -> Forall nonempty cs -> concat cs = concat fs ->
+  exists st' cs', take_items rtu_server_dec (length fs) rstate0 (datas cs) = Some (is, st', datas cs') /\ rbuf st' ++ concat cs' = [].
+Proof. exact rtu_server_stream. Qed.
+Theorem C11_clean_stream_client : forall fs is cs,
+  Forall2 valid_rtu_rsp fs is -> Forall nonempty cs -> concat cs = concat fs ->
+  exists st' cs', take_items rtu_client_dec (length fs) rstate0 (datas cs) = Some (is, st', datas cs') /\ rbuf st' ++ concat cs' = [].
+Proof. exact rtu_client_stream. Qed.
+
+(* which frames are carried *)
+Theorem C11_requests_carried : forall s r, req_size r <= 253 -> rtu_req_supported r = true -> carried req_pdu_len s (spec_req_pdu r).
+Proof. exact req_carried. Qed.
+Theorem C11_responses_carried : forall s r, rsp_size r <= 253 -> rtu_rsp_supported r = true -> carried rsp_pdu_len s (spec_rsp_pdu r).
+Proof. exact rsp_carried. Qed.
+Theorem C11_exceptions_carried : forall s fc code, 1 <= fc -> fc <= 0x2B -> carried rsp_pdu_len s (spec_exc_pdu fc code).
+Proof. exact exc_carried. Qed.
+
+(* an incomplete candidate leaves the buffer untouched *)
+Theorem C11_incomplete_untouched : forall f i p, valid_rtu_req f i -> proper_prefix p f -> rtu_server_dec p = (p, DNone).
+Proof. exact rtu_server_H2. Qed.
+
+(* noise: byte values that are never function codes (0x00, 0x80, 0x41-0x48, 0x64-0x6E) *)
+Theorem C11_noise_never_function_code_req : forall a b tl, is_noise b = true -> exists k, req_pdu_len (a :: b :: tl) = Fail k.
+Proof. exact req_noise_invalid. Qed.
+Theorem C11_noise_never_function_code_rsp : forall a b tl, is_noise b = true -> exists k, rsp_pdu_len (a :: b :: tl) = Fail k.
+Proof. exact rsp_noise_invalid. Qed.
+
+(* up to 19 noise bytes followed by a carried frame whose slave id is noise-valued, arriving in one
+   read: exactly the noise is dropped and the frame is delivered (this covers "up to 16 noise bytes"
+   with room for a lone byte left over from the previous read) *)
+Theorem C11_noise_then_frame_server : forall ns s p x,
+  ns <> [] -> (length ns <= 19)%nat -> forallb is_noise (ns ++ [s]) = true -> carried req_pdu_len s p ->
+  decode_loop req_pdu_len MAX_RETRIES (ns ++ rtu_frame s p ++ x) [] = (x, ns, DSome (s, p)).
+Proof. exact (noise_then_frame req_pdu_len req_pdu_len_no_panic is_noise req_noise_invalid). Qed.
+Theorem C11_noise_then_frame_client : forall ns s p x,
+  ns <> [] -> (length ns <= 19)%nat -> forallb is_noise (ns ++ [s]) = true -> carried rsp_pdu_len s p ->
+  decode_loop rsp_pdu_len MAX_RETRIES (ns ++ rtu_frame s p ++ x) [] = (x, ns, DSome (s, p)).
+Proof. exact (noise_then_frame rsp_pdu_len rsp_pdu_len_no_panic is_noise rsp_noise_invalid). Qed.
+
+(* non-vacuity: a concrete noisy stream *)
+Example C11_ex : fst (rtu_frame_dec req_pdu_len ([0x00; 0x80; 0x41] ++ rtu_frame 0x64 [0x11] ++ [0x99])) = [0x99].
+Proof. vm_compute. reflexivity. Qed.
